@@ -19,17 +19,21 @@ import random
 import re
 import shutil
 import tempfile
+import zlib
 
 PROPERTY = 'C19'
 BOUND = (
     'static: 2 root configurations (plain; fe root given through a symlink and site root through a dotted path) '
-    'x request paths of 1..5 segments over an 18-symbol alphabet {.., ., empty, %2e%2e, absolute path of an '
-    'outside file, names of inside files/dirs, of outside files/dirs, of the roots, of 4 symlinks leaving the '
-    'roots and 2 staying inside} x 4 (leading slashes, isdep, request) variants: exhaustive to 3 segments + '
-    '4000 seeded paths of 4-5 segments quick, exhaustive to 5 segments thorough; access: every registered '
-    'endpoint x {GET,POST,PUT,DELETE,HEAD} x {no client certs, certs + anonymous (TLS without cert / plain '
-    'transport), certs + certificate} x {default hook, hook raising Exception, hook raising BaseException, '
-    'hook that cannot be imported} x {Resource.render, render_<METHOD>}'
+    'x request paths over an 18-symbol segment alphabet {.., ., empty, %2e%2e, absolute path of an outside '
+    'file, names of inside files/dirs, of outside files/dirs, of the roots, of 3 symlinks leaving the roots '
+    'and 1 staying inside}, each run with (leading slashes, isdep, request) variants; quick: all paths of 1-2 '
+    'segments x 4 variants (+ StaticContent.render_GET), all of 3 segments x 1 rotating variant, 4000 seeded '
+    'paths of 4-5 segments; thorough (the space reported as exhaustive): all paths of 1-4 segments x 4 '
+    'variants and all paths of 5 segments over the 12-symbol sub-alphabet x 1 rotating variant, plus 100000 '
+    'seeded 5-segment paths over the full alphabet; access: every registered endpoint x '
+    '{GET,POST,PUT,DELETE,HEAD} x {no client certs, certs + anonymous (TLS without cert / plain transport), '
+    'certs + certificate} x {default hook, hook raising Exception, hook raising BaseException, hook that '
+    'cannot be imported} x {Resource.render, render_<METHOD>} (always exhaustive)'
 )
 
 REPO = os.environ.get('VERIF_REPO', '/repo')
@@ -215,29 +219,51 @@ def _classify(tree, cfg, segs) -> str:
     return '+'.join(sorted(what)) or 'none'
 
 
-def _segments(tier: str, rng: random.Random):
-    maxlen = 3 if tier == 'quick' else 5
-    for n in range(1, maxlen + 1):
-        yield from itertools.product(ALPHABET, repeat=n)
+REDUCED = [x for x in ALPHABET if x not in ('a.txt', 'o.txt', 'pages', 'site', 'fe', 'lnk_in')]
+
+
+def _units(tier: str, rng: random.Random) -> list:
+    '''work units: ('prod', n, prefix, alphabet, variants) or ('list', tuples, variants)'''
     if tier == 'quick':
-        for _ in range(4000):
-            yield tuple(rng.choice(ALPHABET) for _ in range(rng.choice([4, 5])))
+        sampled = [tuple(rng.choice(ALPHABET) for _ in range(rng.choice([4, 5]))) for _ in range(4000)]
+        return [[('prod', 1, (), 'full', 'all'), ('prod', 2, (), 'full', 'all'), ('prod', 3, (), 'full', 'one'),
+                 ('list', sampled, 'one')]]
+    units = [[('prod', 1, (), 'full', 'all'), ('prod', 2, (), 'full', 'all'), ('prod', 3, (), 'full', 'all')]]
+    units += [[('prod', 4, (a,), 'full', 'all')] for a in ALPHABET]
+    units += [[('prod', 5, (a,), 'reduced', 'one')] for a in REDUCED]
+    for _ in range(10):
+        units.append([('list', [tuple(rng.choice(ALPHABET) for _ in range(5)) for _ in range(10000)], 'one')])
+    return units
+
+
+def _expand(unit):
+    if unit[0] == 'list':
+        for segs in unit[1]:
+            yield segs, unit[2]
+    else:
+        _p, n, prefix, alpha, variants = unit
+        for rest in itertools.product(ALPHABET if alpha == 'full' else REDUCED, repeat=n - len(prefix)):
+            yield prefix + rest, variants
 
 
 def _static_chunk(args):
     '''run a list of segment tuples against both configurations in a private tree'''
-    seglist, via_all = args
+    units = args
     base = tempfile.mkdtemp(prefix='c19_')
-    out = {'cases': 0, 'reach_out': 0, 'served_in': 0, 'distinct': 0, 'violations': {}, 'errors': {}}
+    out = {'cases': 0, 'paths': 0, 'reach_out': 0, 'served_in': 0, 'distinct': 0, 'violations': {}, 'errors': {}}
     try:
         tree = _mktree(base)
-        for segs in seglist:
+        for segs, variants in itertools.chain.from_iterable(_expand(u) for u in units):
+            out['paths'] += 1
             for cfg in ('A', 'B'):
                 klass = _classify(tree, cfg, segs)
                 out['distinct'] += 1 if klass != 'none' else 0
                 out['reach_out'] += 1 if 'out' in klass else 0
-                calls = [(v, '_static') for v in VARIANTS]
-                if via_all or len(segs) <= 2:
+                if variants == 'all':
+                    calls = [(v, '_static') for v in VARIANTS]
+                else:
+                    calls = [(VARIANTS[zlib.crc32(repr((cfg, segs)).encode()) % 4], '_static')]
+                if len(segs) <= 2:
                     calls.append((('/', False, True), 'StaticContent'))
                 served = False
                 for variant, via in calls:
@@ -363,8 +389,7 @@ def _access_case(uri, res, original, method, caller, hook, via):
         if via == 'render':
             res.render(req)
         else:
-            name = {'DELETE': 'DELETE'}.get(method.decode(), method.decode())
-            fn = getattr(res, 'render_' + name, None)
+            fn = getattr(res, 'render_' + method.decode(), None)
             if fn is not None:
                 fn(req)
     except BaseException:  # pylint: disable=broad-exception-caught
@@ -426,17 +451,14 @@ def run(tier: str, seed: int) -> dict:
     out = {'cases': 0, 'distinct': 0, 'violations': {}, 'samples': []}
     _access(out)
     access_cases = out['cases']
-    segs = list(_segments(tier, rng))
+    units = _units(tier, rng)
     if tier == 'thorough':
         import multiprocessing
 
-        nproc = min(16, os.cpu_count() or 1)
-        size = 6000
-        chunks = [(segs[i: i + size], False) for i in range(0, len(segs), size)]
-        with multiprocessing.get_context('fork').Pool(nproc) as pool:
-            results = pool.map(_static_chunk, chunks, chunksize=1)
+        with multiprocessing.get_context('fork').Pool(min(16, os.cpu_count() or 1)) as pool:
+            results = pool.map(_static_chunk, units, chunksize=1)
     else:
-        results = [_static_chunk((segs, False))]
+        results = [_static_chunk(u) for u in units]
     errors = {}
     for res in results:
         out['cases'] += res['cases']
@@ -482,7 +504,7 @@ def run(tier: str, seed: int) -> dict:
         'endpoints': out['endpoints'],
         'commands': out['commands'],
         'handler_invocations': out['handler_invocations'],
-        'paths': len(segs),
+        'paths': sum(r['paths'] for r in results),
         'paths_reaching_outside': sum(r['reach_out'] for r in results),
         'paths_served_inside': sum(r['served_in'] for r in results),
         'static_exceptions': errors,
